@@ -293,6 +293,10 @@ impl<'u> Ctx<'u> {
         d.push("finish".into());
         fail(&format!("[{}] {}", self.tag, what), &d, got, want)
     }
+    /// Like `bad`, for a clause that is also a clause of C02 ("every name is well formed").
+    fn bad_c02_too(&self, what: &str, sc: &Scenario, upto: usize, got: &dyn std::fmt::Debug, want: &dyn std::fmt::Debug) -> ! {
+        self.bad(&format!("[C02] {what}"), sc, upto, got, want)
+    }
 
     /// Runs the first `upto` operations of the scenario and `finish`, checks the finished message
     /// and returns it with the model.  None: the scenario is not run (a hint would break the API
@@ -634,7 +638,7 @@ impl<'u> Ctx<'u> {
                     self.bad(&format!("compression pointer at offset {pos} in the {what}, where none is permitted (compression disabled, or SRV / Chaosnet A / TSIG / unknown-type RDATA)"), sc, upto, &(("target", target), "message", show(msg)), &"no pointer");
                 }
                 if target >= pos || !label_starts[target] {
-                    self.bad(&format!("compression pointer at offset {pos} in the {what} does not point strictly backwards to the first octet of a label of an earlier name"), sc, upto, &(("target", target), "message", show(msg)), &"offset of a label of an earlier name");
+                    self.bad_c02_too(&format!("compression pointer at offset {pos} in the {what} does not point strictly backwards to the first octet of a label of an earlier name"), sc, upto, &(("target", target), "message", show(msg)), &"offset of a label of an earlier name");
                 }
                 break pos + 2;
             }
